@@ -29,13 +29,13 @@ func (in *Interp) unop(fr *frame, instr *ssa.UnOp, x Value) Value {
 			}
 			return tb.FP("fp.neg", SFP, t)
 		}
-		if in.intMode {
+		if t.S.K == KInt {
 			return in.intNeg(t, instr.X.Type())
 		}
 		return tb.Neg(t)
 	case token.XOR:
-		if in.intMode {
-			panic(engineAbort{"bitwise complement in int mode"})
+		if xt := x.(*Term); xt.S.K == KInt {
+			return in.fromBV64(tb.BNot(in.toBV64(xt)), isSigned(instr.X.Type()))
 		}
 		return tb.BNot(x.(*Term))
 	case token.ARROW:
@@ -233,8 +233,16 @@ func (in *Interp) binop(fr *frame, op token.Token, t types.Type, x, y Value, yt 
 		panic(engineAbort{fmt.Sprintf("bool binop %v", op)})
 	}
 	signed := isSigned(t)
-	if in.intMode {
+	if a.S.K == KInt {
 		return in.intBin(fr, op, t, a, b, yt)
+	}
+	if b.S.K == KInt && (op == token.SHL || op == token.SHR) {
+		// narrow operand shifted by a wide (Int) count
+		if b.IsConst() {
+			b = tb.BVConst(64, uint64(termInt64(b, false)))
+		} else {
+			b = tb.Int2BV(b, 64)
+		}
 	}
 	switch op {
 	case token.ADD:
@@ -420,8 +428,9 @@ func (in *Interp) conv(fr *frame, dst, src types.Type, x Value) Value {
 				if !xt.IsConst() {
 					panic(engineAbort{"string(rune) of symbolic value"})
 				}
-				r := rune(toSigned(xt.C, xt.S.W))
-				if xt.C > utf8.MaxRune {
+				rv := termInt64(xt, true)
+				r := rune(rv)
+				if rv < 0 || rv > utf8.MaxRune {
 					r = utf8.RuneError
 				}
 				return Str{S: string(r)}
@@ -433,8 +442,8 @@ func (in *Interp) conv(fr *frame, dst, src types.Type, x Value) Value {
 			}
 			switch {
 			case ds.K == KBV && ss.K == KBV:
-				if in.intMode {
-					return in.intConv(xt, us, db)
+				if in.intMode && (is64(us) || is64(db)) {
+					return in.intConvWide(xt, us, db)
 				}
 				if ds.W <= ss.W {
 					return tb.Extract(xt, int(ds.W)-1, 0)
@@ -446,6 +455,9 @@ func (in *Interp) conv(fr *frame, dst, src types.Type, x Value) Value {
 			case ds.K == KFP && ss.K == KFP:
 				return xt
 			case ds.K == KFP && ss.K == KBV:
+				if xt.S.K == KInt {
+					xt = in.toBV64(xt)
+				}
 				if xt.IsConst() {
 					if ssigned {
 						return in.fpConst(float64(toSigned(xt.C, xt.S.W)))
@@ -465,10 +477,16 @@ func (in *Interp) conv(fr *frame, dst, src types.Type, x Value) Value {
 					}
 					return tb.BVConst(int(ds.W), uint64(f))
 				}
+				var r *Term
 				if dsigned {
-					return tb.FP(fmt.Sprintf("(_ fp.to_sbv %d) RTZ", ds.W), ds, xt)
+					r = tb.FP(fmt.Sprintf("(_ fp.to_sbv %d) RTZ", ds.W), ds, xt)
+				} else {
+					r = tb.FP(fmt.Sprintf("(_ fp.to_ubv %d) RTZ", ds.W), ds, xt)
 				}
-				return tb.FP(fmt.Sprintf("(_ fp.to_ubv %d) RTZ", ds.W), ds, xt)
+				if in.intMode && is64(db) {
+					return in.fromBV64(r, dsigned)
+				}
+				return r
 			case ds.K == KBool && ss.K == KBool:
 				return xt
 			}
